@@ -155,6 +155,15 @@ def new_exact(rng):
     if rng.random() < 0.5:
         bars, _ = gen_bars(rng)
         bars = bars[:6]
+        if rng.random() < 0.25:
+            # up to 12 bars on a decimal lattice (0.001 units) with lattice jitter: half-sums of such coordinates round differently
+            # along different routes, so the sweep emits critical points whose abscissae coincide or differ by one ulp
+            bars, _ = gen_bars(rng)
+            bars = np.round(bars / max(float(np.max(np.abs(bars))), 1e-300) * float(rng.integers(8, 60))) * 0.001
+            bars = bars + rng.integers(-1, 2, bars.shape) * 0.001 * float(rng.integers(1, 15))
+            bars = bars[bars[:, 1] > bars[:, 0]]
+            if len(bars) == 0:
+                bars = np.array([[0.001, 0.004]])
         # a third of the diagram-built operands are created lazily (compute=False): nothing has evaluated them when they are
         # first used as an operand
         P = PLE(dgms=[bars] * (hom + 1), hom_deg=hom, compute=bool(rng.random() < 0.67))
